@@ -344,7 +344,16 @@ def t_alt(ctx):
         ok = c[0] == "un" and c[1] == "Not" and c[2][0] == "call" and c[2][1].endswith("Reader::is_empty")
         body = loops[0][1][0][2]
         assigns = [st for st in body if st[0] == "assign"]
-        ok = ok and any(is_var(a[1], "data") and is_var(a[2], "rest") for a in assigns) and any(is_var(a[1], "mode") and is_var(a[2], "new_mode") for a in assigns)
+        # roles: the reader is the variable tested by the loop condition, the mode is the scrutinee of the dispatch; both are
+        # re-assigned from the (reader, mode) pair the dispatched decoder returned
+        reader = c[2][2][0][1] if ok and c[2][2][0][0] == "var" else None
+        pair = [st for st in body if st[0] == "letpat" and len(st[1]) == 2 and st[2] is not None and st[2][0] == "match" and st[2][1][0] == "var"]
+        if ok and reader and len(pair) == 1:
+            n_rest, n_mode = [n.split("#")[0] for n in pair[0][1]]
+            modev = pair[0][2][1][1]
+            ok = any(is_var(a[1], reader) and is_var(a[2], n_rest) for a in assigns) and any(is_var(a[1], modev) and is_var(a[2], n_mode) for a in assigns)
+        else:
+            ok = False
     obs.append(Ob(r, "main-loop", ok, "decode_parts loops while the reader is non-empty and continues with exactly the reader and mode the decoder returned"))
     return obs
 
